@@ -243,6 +243,33 @@ def r5(ctx):
                     s = L.resolve_str_operand(fn, fn.blocks[bb][1][2][1])
                     if s:
                         got.add(s)
+            # rounding after the product: packed sub-byte samples of several components share bytes, so
+            # the stride is ceil(Colors*BitsPerComponent/8); rounding one factor first over-counts
+            fl = FL.flow(fn)
+            seen, drecs = fl.back_slice(FL.op_locals(a))
+            early = None
+            for dd in drecs:
+                if dd[0] == "stmt":
+                    st = fn.blocks[dd[1]][0][dd[2]]
+                    rv = st[2]
+                    if rv[0] == "bin" and rv[1].startswith("Mul"):
+                        for o in (rv[2], rv[3]):
+                            s2, d2 = fl.back_slice(FL.op_locals(o))
+                            for bb, cc in fl.calls_in_slice(d2):
+                                if L.is_call_to(cc, ["div_ceil", "next_multiple_of"]):
+                                    early = fn.where(dd[1])
+                            for d3 in d2:
+                                if d3[0] == "stmt":
+                                    r3 = fn.blocks[d3[1]][0][d3[2]][2]
+                                    if r3[0] == "bin" and (r3[1].startswith("Div") or r3[1].startswith("Shr")):
+                                        early = fn.where(dd[1])
+            if early:
+                ctx.violation("R5", "%s:stride-rounds-after-product" % callee, "the pixel stride given to %s multiplies a value that was "
+                              "already rounded up to whole bytes: for packed samples (BitsPerComponent 1/2/4 with several components) "
+                              "ISO 32000-1 defines the stride as ceil(Colors*BitsPerComponent/8); rounding one factor first takes the "
+                              "left neighbour from the wrong byte" % callee, early)
+            else:
+                ctx.ok("R5", "%s:stride-rounds-after-product" % callee, "rounding is applied to the product", fn.where(b))
             if not {"Colors", "BitsPerComponent"} <= got:
                 ctx.violation("R5", key, "pixel stride passed to %s does not depend on /Colors and /BitsPerComponent "
                               "(depends on: %s)" % (callee, sorted(got)), fn.where(b))
